@@ -445,6 +445,46 @@ def run(F, chk):
                                   (fn["name"], "`, `".join(others), qn, btxt))
     chk.floor(R7, 2)
 
+    # ---------------------------------------------------------------- R16.8
+    R8 = chk.rule("R16.8", "a Load that gives up leaves an empty model: once NiHeader::Get has filled the header (block count, type table) "
+                           "every return of NifFile::Load with a non-zero code is preceded, on its path, by Clear() — a header that "
+                           "announces N blocks over an empty block list makes the next query or Save index past it")
+    loads8 = [f for f in F.fn_named("nifly::NifFile::Load") if "istream" in f["id"] and f.get("body")]
+    if len(loads8) != 1:
+        raise report.Broken("R16.8: NifFile::Load(std::istream&, ...) not found")
+    ld = F.inl(loads8[0])
+
+    class ErrExit(flow.Flow):
+        def on_node(self, n, st):
+            if st is None or n["k"] != "Call":
+                return st
+            if n.get("fn") == "nifly::NiHeader::Get":
+                return st | {("D", "header read")}
+            if n.get("fn") == "nifly::NifFile::Clear" and (n.get("recv") is None or n["recv"]["k"] == "This"):
+                return frozenset(f for f in st if f != ("D", "header read"))
+            return st
+
+    ee = ErrExit(F, ld)
+    ee.run()
+    n8 = 0
+    for kind, node, st in ee.exits:
+        if kind != "return" or not is_node(node) or st is None or st is flow.BOT:
+            continue
+        rv = node.get("e")
+        while is_node(rv) and rv["k"] == "Cast":
+            rv = rv["e"]
+        if not (is_node(rv) and isinstance(rv.get("val"), int) and rv["val"] != 0):
+            continue
+        n8 += 1
+        ok = ("D", "header read") not in st
+        chk.instance(R8, ok=ok, sample={"fn": "NifFile::Load", "returns": rv["val"], "at": node.get("loc")})
+        if not ok:
+            chk.violation("R16.8", "C16/R16.8:Load:return %s" % rv["val"], where(loads8[0], node),
+                          "NifFile::Load returns %s after NiHeader::Get has filled the header without clearing the model: the header "
+                          "keeps announcing blocks that were never read, and the next query or Save of what the load left behind "
+                          "indexes the empty block list" % rv["val"])
+    chk.floor(R8, 3)
+
 
 def _pos_guard(st, d):
     """divisor proven >= 1 by a comparison fact like (0 < d) or !(d < 1)"""
